@@ -301,6 +301,42 @@ theorem nodeLoss_is_true_loss (padding : ℝ) (r : List (Elem ℝ)) (u : String)
   rw [hl']
   simp only [Elem.dsl, hd]
 
+/-! ### the recorded reference input powers are what the designed line delivers -/
+
+/-- every amplifier of the line closes the budget for the power that reaches it: `p − in_voa + gain = p_ref + _delta_p`
+(this is `gain_closes_budget` with `node_loss` = the loss walked since the previous amplifier, cf.
+`ref_power_invariant`, `nodeLoss_is_true_loss`) -/
+def BudgetOK (pref : ℝ) : ℝ → List (Elem ℝ) → List (AmpOut ℝ) → Prop
+  | _, [], _ => True
+  | p, .edfa _ _ :: rest, o :: outs =>
+    p - o.inVoa + o.gain = pref + o.dpInt ∧ BudgetOK pref (pref + o.dpInt - o.outVoa) rest outs
+  | _, .edfa _ _ :: _, [] => True
+  | p, .fiber _ q :: rest, outs => BudgetOK pref (p - q.loss) rest outs
+  | p, .fused _ l :: rest, outs => BudgetOK pref (p - l) rest outs
+
+/-- **`ref_pch_in_dbm` of fibres and ROADMs** (`set_fiber_input_power`, `set_roadm_input_powers`: amplifier target minus
+the losses walked) is the power the reference channel really has there when it is sent through the designed line
+without noise — along any line, for any mix of elements. -/
+theorem ref_pch_in_consistent (pref : ℝ) :
+    ∀ (line : List (Elem ℝ)) (p : ℝ) (outs : List (AmpOut ℝ)), BudgetOK pref p line outs →
+      refIns pref p line outs = propIns p line outs := by
+  intro line
+  induction line with
+  | nil => intro p outs _; simp [refIns, propIns]
+  | cons e rest ih =>
+    intro p outs h
+    cases e with
+    | fiber u q => simp only [refIns, propIns, BudgetOK] at h ⊢; rw [ih _ _ h]
+    | fused u l => simp only [refIns, propIns, BudgetOK] at h ⊢; rw [ih _ _ h]
+    | edfa u a =>
+      cases outs with
+      | nil => simp [refIns, propIns]
+      | cons o os =>
+        simp only [refIns, propIns, BudgetOK] at h ⊢
+        rw [ih _ _ h.2]
+        have : p - o.inVoa + o.gain - o.outVoa = pref + o.dpInt - o.outVoa := by rw [h.1]
+        rw [this]
+
 /-! ### non-vacuity -/
 
 /-- `ref_power_invariant` applied to a two-amplifier OMS with mixed settings (auto booster, user in-line amplifier
